@@ -2272,6 +2272,8 @@ def odd_inputs():
     add("length_minutes", "", 'task a "A" { effort 1h allocate r }\n', "+300min")
     # the same astronomically large gap seen from the other end (backward mode, on-start edge, maximum gap), a working-time gap
     # counted from a milestone the user put years before the project, numbers no float can hold
+    add("alap_feeds_forward", "", 'task pre "Pre" { effort 1d allocate r }\ntask anchor "Anchor" { effort 1d allocate r depends !pre scheduling alap end 2024-01-12-17:00 }\ntask other "Other" { effort 1d allocate r2 depends !pre }\n')
+    add("alap_then_forward", "", 'task a "A" { effort 1d allocate r scheduling alap }\ntask b "B" { effort 1d allocate r depends !a }\n', "+4w")
     add("huge_gap_alap", "", 'task a "A" { effort 1d allocate r scheduling alap precedes !b { gapduration 4000000d } }\ntask b "B" { effort 1d allocate r scheduling alap end 2024-01-12 }\n')
     add("huge_gap_alap_onstart", "", 'task b "B" { effort 1d allocate r scheduling alap end 2024-01-12 }\ntask a "A" { effort 1d allocate r scheduling alap depends !b { onstart gapduration 4000000d } }\n')
     add("huge_gap_maxgap", "", 'task a "A" { effort 1d allocate r }\ntask b "B" { effort 1d allocate r2 depends !a { gapduration 4000000d maxgapduration 1h } }\n')
